@@ -113,10 +113,10 @@ def digitsVal (ds : List Nat) : Nat := ds.foldl (fun a c => a * 10 + (c - 48)) 0
 
 def lowerAscii (s : List Nat) : List Nat := s.map Py.toLowerAscii
 
-/-- `float(s)` for ASCII text: whitespace, sign, inf/infinity/nan, decimal with optional fraction and
+/-- `float(s)` for ASCII text: C whitespace {32, 9..13} only (not 0x1C..0x1F), sign, inf/infinity/nan, decimal with optional fraction and
     exponent. ValueError otherwise. -/
 def ofStr (s : List Nat) : Except PyExc F :=
-  let s := Py.strip s
+  let s := Py.stripC s
   let (neg, s) := match s with
     | 43 :: r => (false, r)
     | 45 :: r => (true, r)
